@@ -474,3 +474,305 @@ def biv_sample_rosenblatt(ctx):
                               {'family': fam, 'theta': th,
                                'repro': ('from vf.extra_oracles import biv_sample_rosenblatt_replay\n'
                                          f'why = biv_sample_rosenblatt_replay({fam!r}, {th!r})\nprint(why)\nassert why is None\n')})
+
+
+# ======================================================================================================================
+# univariate: histories through the CONSTANT branch (falsy constant 0.0 included) and tiny / huge-offset scales, directly
+# and through to_dict / from_dict (added after the second round of seeded changes)
+# ======================================================================================================================
+def _uni_classes():
+    from copulas import univariate as U
+    return [(U.GaussianUnivariate, {}), (U.UniformUnivariate, {}), (U.StudentTUnivariate, {}), (U.TruncatedGaussian, {}),
+            (U.GaussianKDE, {}), (U.GammaUnivariate, {}), (U.BetaUnivariate, {}), (U.LogLaplace, {})]
+
+
+def uni_const_history_replay(cname, const, order):
+    """order 'const-then-data': fit(n copies of const); queries; fit(data) must answer like a fresh fit(data);
+       order 'data-then-const': fit(data); queries; fit(const copies) must be the point mass at const."""
+    from copulas import univariate as U
+    cls = getattr(U, cname)
+    rs = np.random.RandomState(17)
+    data = np.abs(rs.normal(3.0, 1.0, 80)) + 0.2
+    cdata = np.full(30, float(const))
+    xs = np.linspace(data.min() - 0.5, data.max() + 0.5, 9)
+    qs = np.array([0.05, 0.3, 0.5, 0.8, 0.95])
+    m = cls()
+    first, second = (cdata, data) if order == 'const-then-data' else (data, cdata)
+    with np.errstate(all='ignore'):
+        m.fit(first)
+        m.cumulative_distribution(xs); m.probability_density(xs); m.percent_point(qs); m.sample(3)
+        m.fit(second)
+    bad = []
+    with np.errstate(all='ignore'):
+        if order == 'data-then-const':
+            c = float(const)
+            cd = np.asarray(m.cumulative_distribution(np.array([c - 1.0, c - 1e-9, c, c + 1.0])), dtype=float)
+            if cd.tolist() != [0.0, 0.0, 1.0, 1.0]:
+                bad.append(f'cdf around the constant {c}: {cd.tolist()} (expected the unit step [0,0,1,1])')
+            pp = np.asarray(m.percent_point(qs), dtype=float)
+            if not np.all(pp == c):
+                bad.append(f'percent_point {pp.tolist()} (expected all {c})')
+            s = np.asarray(m.sample(5), dtype=float)
+            if not np.all(s == c):
+                bad.append(f'sample {s.tolist()} (expected all {c})')
+        else:
+            if cls is U.GaussianKDE:
+                from scipy.stats import gaussian_kde
+                ds = np.asarray(m._params['dataset'], dtype=float).ravel()
+                ref = gaussian_kde(ds)
+                a = np.asarray(m.cumulative_distribution(xs), dtype=float)
+                b = np.array([ref.integrate_box_1d(-np.inf, t) for t in xs])
+                if len(set(ds.tolist())) < 2 or not np.allclose(a, b, atol=1e-6):
+                    bad.append(f'cumulative_distribution {a.tolist()[:5]} vs kernel estimate of the stored dataset {b.tolist()[:5]}')
+                pa, pb = np.asarray(m.probability_density(xs), dtype=float), ref.evaluate(xs)
+                if not np.allclose(pa, pb, rtol=1e-9, atol=1e-12):
+                    bad.append(f'probability_density {pa.tolist()[:4]} vs {pb.tolist()[:4]}')
+                q = np.asarray(m.percent_point(qs), dtype=float)
+                cq = np.array([ref.integrate_box_1d(-np.inf, t) for t in q])
+                if not np.allclose(cq, qs, atol=1e-5):
+                    bad.append(f'cdf(percent_point(q)) = {cq.tolist()} for q = {qs.tolist()}')
+                s = np.asarray(m.sample(6), dtype=float)
+                if len(set(s.tolist())) < 2:
+                    bad.append(f'sample {s.tolist()} is constant')
+            else:
+                f = cls()
+                f.fit(second)
+                for meth, x in (('cumulative_distribution', xs), ('probability_density', xs), ('log_probability_density', xs), ('percent_point', qs)):
+                    a, b = np.asarray(getattr(m, meth)(x), dtype=float), np.asarray(getattr(f, meth)(x), dtype=float)
+                    if not np.allclose(a, b, rtol=1e-9, atol=1e-12, equal_nan=True):
+                        bad.append(f'{meth}: {a.tolist()[:4]} vs fresh {b.tolist()[:4]}')
+                s = np.asarray(m.sample(6), dtype=float)
+                if len(set(s.tolist())) < 2:
+                    bad.append(f'sample {s.tolist()} is constant')
+    return bad
+
+
+def uni_scale_roundtrip_replay(cname, kind):
+    """non-constant data with a tiny absolute scale or a huge offset: the fitted model, and the model rebuilt from to_dict(), must both
+    be non-degenerate and agree (cdf strictly between 0 and 1 at the sample median; cdf(ppf(q)) = q)."""
+    from copulas import univariate as U
+    cls = getattr(U, cname)
+    rs = np.random.RandomState(29)
+    z = rs.uniform(1.0, 3.0, 120)
+    data = {'tiny': 1e-9 * z, 'small': 1e-6 * z, 'offset': 1.0e6 + (z - 2.0)}[kind]
+    m = cls()
+    bad = []
+    with np.errstate(all='ignore'):
+        m.fit(data)
+        r = cls.from_dict(m.to_dict()) if hasattr(cls, 'from_dict') else None
+        med = np.array([float(np.median(data))])
+        qs = np.array([0.2, 0.5, 0.8])
+        for nm, o in (('fitted', m), ('rebuilt from to_dict()', r)):
+            if o is None:
+                continue
+            c = float(np.asarray(o.cumulative_distribution(med), dtype=float)[0])
+            if not (0.02 < c < 0.98):
+                bad.append(f'{nm} model: cdf(median of {len(set(data.tolist()))} distinct values) = {c} (degenerate step)')
+                continue
+            back = np.asarray(o.cumulative_distribution(np.asarray(o.percent_point(qs), dtype=float)), dtype=float)
+            if not np.allclose(back, qs, atol=1e-4):
+                bad.append(f'{nm} model: cdf(percent_point({qs.tolist()})) = {back.tolist()}')
+        if r is not None and not bad:
+            a = np.asarray(m.cumulative_distribution(np.sort(data)[::10]), dtype=float)
+            b = np.asarray(r.cumulative_distribution(np.sort(data)[::10]), dtype=float)
+            if not np.allclose(a, b, rtol=1e-9, atol=1e-12):
+                bad.append(f'rebuilt model differs from the fitted one: cdf {a.tolist()[:4]} vs {b.tolist()[:4]}')
+    return bad
+
+
+def univariate_constant_history(ctx, roundtrip=True):
+    for cls, kw in _uni_classes():
+        cname = cls.__name__
+        for const in (0.0, 5.0, -2.5):
+            for order in ('const-then-data', 'data-then-const'):
+                ctx.case(('const-history', cname, const, order), {'class': cname, 'constant': const, 'order': order})
+                try:
+                    bad = uni_const_history_replay(cname, const, order)
+                except Exception as ex:
+                    bad = [f'raised {type(ex).__name__}: {str(ex)[:120]}']
+                ctx.obligation(f'oracle:const-history:{cname}:{const}:{order}', not bad, 'correspondence', '; '.join(bad)[:300])
+                if bad:
+                    ctx.violation(f'search:const-history:{order}:{cname}', f'{cname}: {order} with constant {const}: ' + '; '.join(bad)[:400],
+                                  {'class': cname, 'constant': const, 'order': order,
+                                   'repro': ('from vf.extra_oracles import uni_const_history_replay\n'
+                                             f'bad = uni_const_history_replay({cname!r}, {const!r}, {order!r})\nprint(bad)\nassert not bad\n')})
+        if not roundtrip:
+            continue
+        for kind in ('tiny', 'small', 'offset'):
+            if kind in ('tiny', 'small') and cname in ('GammaUnivariate', 'BetaUnivariate', 'LogLaplace', 'StudentTUnivariate', 'TruncatedGaussian'):
+                continue       # scipy's generic MLE is not reliable at 1e-9 scales; location-scale closed forms and the KDE are
+            if kind == 'offset' and cname in ('GammaUnivariate', 'BetaUnivariate', 'LogLaplace', 'StudentTUnivariate', 'TruncatedGaussian'):
+                continue
+            ctx.case(('scale-roundtrip', cname, kind), {'class': cname, 'data': kind})
+            try:
+                bad = uni_scale_roundtrip_replay(cname, kind)
+            except Exception as ex:
+                bad = [f'raised {type(ex).__name__}: {str(ex)[:120]}']
+            ctx.obligation(f'oracle:scale-roundtrip:{cname}:{kind}', not bad, 'correspondence', '; '.join(bad)[:300])
+            if bad:
+                ctx.violation(f'search:scale-roundtrip:{kind}:{cname}', f'{cname} on {kind}-scale non-constant data: ' + '; '.join(bad)[:400],
+                              {'class': cname, 'data': kind,
+                               'repro': ('from vf.extra_oracles import uni_scale_roundtrip_replay\n'
+                                         f'bad = uni_scale_roundtrip_replay({cname!r}, {kind!r})\nprint(bad)\nassert not bad\n')})
+
+
+# ======================================================================================================================
+# root finders: CONTAINER / dtype of the brackets (int arrays, lists, overlapping views, re-used and read-only arrays)
+# ======================================================================================================================
+def root_container_replay(which, container):
+    """the roots returned for brackets given in `container` form must satisfy the property's tolerance, and the caller's bracket
+    objects must be left untouched.  Returns None or a description."""
+    from copulas.optimize import bisect, chandrupatla
+    solver = bisect if which == 'bisect' else chandrupatla
+    roots = np.array([2.3, 0.7, 7.9, 4.4])
+    lo_f, hi_f = np.array([0.0, 0.0, 5.0, 1.0]), np.array([10.0, 5.0, 9.0, 8.0])
+
+    def f(x):
+        d = np.asarray(x, dtype=float) - roots
+        return d * d * d + 0.5 * d
+    if container == 'int-arrays':
+        lo, hi = lo_f.astype(int), hi_f.astype(int)
+    elif container == 'int-lower-float-upper':
+        lo, hi = lo_f.astype(int), hi_f.copy()
+    elif container == 'lists':
+        lo, hi = [0, 0, 5, 1], [10, 5.0, 9, 8]
+    elif container == 'float-lists':
+        lo, hi = lo_f.tolist(), hi_f.tolist()
+    elif container == 'overlapping-views':
+        grid = np.array([0.0, 2.0, 4.0, 6.0, 8.0])
+        roots = np.array([1.3, 3.1, 4.5, 7.7])
+        lo, hi = grid[:-1], grid[1:]
+    elif container == 'reused':
+        lo, hi = lo_f.copy(), hi_f.copy()
+        with np.errstate(all='ignore'):
+            solver(f, lo, hi)
+    elif container == 'read-only':
+        lo, hi = lo_f.copy(), hi_f.copy()
+        lo.setflags(write=False); hi.setflags(write=False)
+    elif container == 'float32':
+        lo, hi = lo_f.astype(np.float32), hi_f.astype(np.float32)
+    else:
+        raise ValueError(container)
+    before = (np.array(lo, dtype=float, copy=True), np.array(hi, dtype=float, copy=True))
+    try:
+        with np.errstate(all='ignore'):
+            x = np.asarray(solver(f, lo, hi), dtype=float)
+    except Exception as ex:
+        return f'{which} raised {type(ex).__name__}: {str(ex)[:100]} for valid brackets given as {container}'
+    if not (np.array_equal(np.asarray(lo, dtype=float), before[0]) and np.array_equal(np.asarray(hi, dtype=float), before[1])):
+        return f"{which} modified the caller's bracket objects ({container}): xmin {before[0].tolist()} -> {np.asarray(lo, dtype=float).tolist()}"
+    width = before[1] - before[0]
+    tol = 1e-8 if which == 'bisect' else 1e-9 * width + 1e-14
+    if container == 'float32':
+        tol = np.maximum(tol, 1e-6)
+    err = np.abs(x - roots)
+    k = int(np.argmax(err - tol))
+    if x.shape != roots.shape or not np.all(np.isfinite(x)) or np.any(err > tol * 1.0000001 + 1e-15):
+        return f'{which} with brackets given as {container}: lane {k} returned {x[k]!r}, the root is {roots[k]!r} (bracket [{before[0][k]}, {before[1][k]}])'
+    return None
+
+
+def root_containers(ctx):
+    for which in ('bisect', 'chandrupatla'):
+        for container in ('int-arrays', 'int-lower-float-upper', 'lists', 'float-lists', 'overlapping-views', 'reused', 'read-only', 'float32'):
+            if which == 'chandrupatla' and container in ('lists', 'float-lists'):
+                continue        # documented argument type is np.ndarray; chandrupatla rejects lists loudly (TypeError), bisect converts them
+            ctx.case(('container', which, container), {'solver': which, 'brackets': container})
+            try:
+                why = root_container_replay(which, container)
+            except Exception as ex:
+                why = f'oracle raised {type(ex).__name__}: {str(ex)[:120]}'
+            ctx.obligation(f'oracle:container:{which}:{container}', why is None, 'correspondence', why or '')
+            if why:
+                ctx.violation(f'search:container:{which}:{container}', why,
+                              {'solver': which, 'brackets': container,
+                               'repro': ('from vf.extra_oracles import root_container_replay\n'
+                                         f'why = root_container_replay({which!r}, {container!r})\nprint(why)\nassert why is None\n')})
+
+
+# ======================================================================================================================
+# vines: HISTORY on one object (fit; use; re-fit on another table) must equal a fresh model fitted on the second table
+# ======================================================================================================================
+def _vine_tables():
+    rs = np.random.RandomState(4242)
+    import pandas as pd
+    z = rs.multivariate_normal(np.zeros(4), 0.6 * np.ones((4, 4)) + 0.4 * np.eye(4), 70)
+    A = pd.DataFrame({'a': z[:, 0], 'b': np.exp(0.5 * z[:, 1]), 'c': 2 * z[:, 2] - 1, 'd': z[:, 3] ** 3})
+    w = rs.multivariate_normal(np.zeros(4), np.array([[1, -.7, .2, 0], [-.7, 1, .1, .3], [.2, .1, 1, -.5], [0, .3, -.5, 1.0]]), 80)
+    B = pd.DataFrame({'a': 100 + 5 * w[:, 0], 'b': 50 + w[:, 1], 'c': -30 + 2 * w[:, 2], 'd': 7 + 0.1 * w[:, 3]})
+    C = B[['c', 'a', 'b']].copy()
+    return A, B, C
+
+
+def _vine_struct(v):
+    out = []
+    for t in v.trees:
+        out.append([(int(e.L), int(e.R), sorted(int(x) for x in e.D), str(e.name), float(e.theta)) for e in t.edges])
+    return out
+
+
+def vine_history_replay(vtype, second, aspect):
+    """fit(A, truncated=2); sample; likelihood; fit(second table) on ONE object vs a fresh object fitted on the second table"""
+    from copulas.multivariate import VineCopula
+    A, B, C = _vine_tables()
+    X2, t2 = (B, 3) if second == 'B' else (C, 1)
+    with np.errstate(all='ignore'):
+        v = VineCopula(vtype, random_state=5)
+        v.fit(A, truncated=2)
+        v.sample(2)
+        v.get_likelihood(np.full((1, 4), 0.4))
+        try:
+            v.fit(X2, truncated=t2)
+        except Exception as ex:
+            return f'fit(A); sample; fit({second}) raised {type(ex).__name__}: {str(ex)[:100]}'
+        f = VineCopula(vtype, random_state=5)
+        f.fit(X2, truncated=t2)
+        d = X2.shape[1]
+        if aspect == 'structure':
+            if len(v.trees) != min(d - 1, t2):
+                return f'after the re-fit the model holds {len(v.trees)} trees; a {d}-column table with truncated={t2} has {min(d - 1, t2)}'
+            a, b = _vine_struct(v), _vine_struct(f)
+            if a != b:
+                k = next(i for i in range(len(a)) if a[i] != b[i])
+                return f'tree {k + 1} after the re-fit {a[k]} differs from a fresh fit {b[k]}'
+            return None
+        if aspect == 'likelihood':
+            u = np.linspace(0.2, 0.7, d).reshape(1, -1)
+            la, lb = v.get_likelihood(u), f.get_likelihood(u)
+            if not (np.isclose(la, lb, rtol=1e-9, atol=1e-12) or (np.isnan(la) and np.isnan(lb))):
+                return f'get_likelihood after the re-fit {la!r} differs from a fresh fit {lb!r}'
+            return None
+        v.set_random_state(9); f.set_random_state(9)
+        try:
+            sa = np.asarray(v.sample(6), dtype=float)
+        except Exception as ex:
+            sa = ex
+        try:
+            sb = np.asarray(f.sample(6), dtype=float)
+        except Exception as ex:
+            sb = ex
+        if isinstance(sb, Exception):
+            return None if isinstance(sa, Exception) else 'fresh model raises in sample but the re-fitted one returns'
+        if isinstance(sa, Exception):
+            return f'sample after the re-fit raised {type(sa).__name__}: {str(sa)[:100]}'
+        if sa.shape != sb.shape or not np.allclose(sa, sb, rtol=1e-9, atol=1e-12, equal_nan=True):
+            return (f'sample after the re-fit differs from a fresh model with the same seed: first row {sa[0].tolist()} vs {sb[0].tolist()} '
+                    f'(second table medians {np.median(X2.to_numpy(), axis=0).tolist()})')
+        return None
+
+
+def vine_history(ctx, aspects):
+    for vtype in ('center', 'direct', 'regular'):
+        for second in ('B', 'C'):
+            for aspect in aspects:
+                ctx.case(('vine-history', vtype, second, aspect), {'vine': vtype, 'history': f'fit(A,t=2); sample; likelihood; fit({second})', 'aspect': aspect})
+                try:
+                    why = vine_history_replay(vtype, second, aspect)
+                except Exception as ex:
+                    why = f'oracle raised {type(ex).__name__}: {str(ex)[:120]}'
+                ctx.obligation(f'oracle:vine-history:{vtype}:{second}:{aspect}', why is None, 'correspondence', why or '')
+                if why:
+                    ctx.violation(f'search:vine-history:{aspect}:{vtype}', f"VineCopula('{vtype}'): {why}",
+                                  {'vine': vtype, 'second_table': second, 'aspect': aspect,
+                                   'repro': ('from vf.extra_oracles import vine_history_replay\n'
+                                             f'why = vine_history_replay({vtype!r}, {second!r}, {aspect!r})\nprint(why)\nassert why is None\n')})
